@@ -375,10 +375,10 @@ class Repr(Family):
             a = run_alg(alg, as_data(X, "dense"), c, **kw)
             b = run_alg(alg, as_data(X, "sparse", c.get("order_seed")), c, **kw)
             impl = {"dense": brief(a), "sparse": brief(b)}
-            if c.get("inadmissible"):
-                ok = (not a.get("reject")) and b.get("reject")
-                out.append(Verdict("ok" if ok else "corr", "" if ok else "sparse data no longer refused: extend the family",
-                                   impl, None, None, tags + ["sparse-refused"], False))
+            if b.get("reject") and not a.get("reject") and (c.get("inadmissible") or alg == "tucker_als"):
+                # hosvd and gcp_opt+LBFGSB refuse sparse data, tucker_als is documented for dense data only:
+                # a refusal is not a presentation-dependent RESULT.  (If they accept it, the results are compared.)
+                out.append(Verdict("ok", "", impl, None, None, tags + ["sparse-refused"], False))
                 continue
             if a.get("reject") or b.get("reject"):
                 if a.get("reject") and b.get("reject"):
